@@ -112,6 +112,13 @@ def main():
         sched.client_wait(spec['sched_sock'],
                           {'pid': os.getpid(), 'ppid': os.getppid(),
                            'verdict': v, 'ntoks': len(toks)})
+    if beh.get('sleep_ms'):
+        time.sleep(beh['sleep_ms'] / 1000.0)     # e.g. beyond --timeout
+    if beh.get('kill'):
+        # die by a signal (an OOM kill, a watchdog): exit status -signal
+        sys.stdout.flush()
+        os.kill(os.getpid(), beh['kill'])
+        time.sleep(5)
     if beh.get('out_hex'):
         # raw bytes (not necessarily text)
         sys.stdout.flush()
